@@ -23,8 +23,8 @@ ASSUMPTIONS = [
 BATCH = {"quick": 4, "thorough": 8}
 TIMEOUT = {"quick": 1500, "thorough": 7200}
 FLOORS = {
-    "quick": {"entries_compared": 2000, "models_compared": 40, "jit_false_models": 8, "w2_arrays_compared": 8},
-    "thorough": {"entries_compared": 50000, "models_compared": 400, "jit_false_models": 50, "w2_arrays_compared": 50},
+    "quick": {"entries_compared": 2000, "models_compared": 40, "jit_false_models": 8},
+    "thorough": {"entries_compared": 50000, "models_compared": 400, "jit_false_models": 50},
 }
 NEEDED_FEATURES = [
     "filters", "mixed_discrete", "two_cont_choices", "two_cont_states", "stochastic",
@@ -40,7 +40,7 @@ def plan(tier, seed):
     cases = []
     for i in range(n):
         cases.append({"kind": "generic", "index": i, "seed": [seed, 1, i], "cfg": cfg,
-                      "jit_false": i % 3 == 0, "checkify": tier == "thorough" and i % 4 == 1,
+                      "jit_false": i % 3 == 0, "checkify": (i % 4 == 1) if tier == "thorough" else (i % 8 == 5),
                       "env": {"VERIF_X64": "1"}})
     m = 12 if tier == "quick" else 120
     for i in range(m):
